@@ -133,6 +133,9 @@ def resolve(ctx, f, c):
     return cs[0] if len(cs) == 1 else None
 
 
+FN_VALUE_ADAPTORS = ('and_then', 'map', 'filter_map', 'find_map', 'flat_map', 'map_or', 'map_or_else', 'is_some_and', 'is_none_or', 'filter', 'then', 'unwrap_or_else', 'or_else')
+
+
 def resolve_mir(ctx, f, c):
     """A method call the syntactic resolver cannot type (`x.m()` where m is a method of a workspace trait implemented for
     several types): rustc's resolution of the call written at that source position names the impl."""
@@ -303,6 +306,21 @@ def view(ctx, f, depth=3, stop=(), _stack=(), force=(), mir=False):
                 return v
             # resolve the callee on the node as written (its receiver still carries its type; once the receiver itself has been
             # replaced by an expanded result the type is gone), then rewrite the children
+            # `opt.and_then(helper)` / `it.map(helper)`: a local function handed over by name is the closure `|x| helper(x)`
+            if v.get('k') == 'call' and v.get('recv') is not None and v.get('f') in FN_VALUE_ADAPTORS and v.get('args'):
+                new_args, changed = [], False
+                for a in v['args']:
+                    a0 = vt.unvar(a)
+                    if isinstance(a0, dict) and a0.get('k') == 'path' and a0.get('text'):
+                        elem = {'k': 'elem', 'of': v['recv'], 'param': '__x', 'pos': 0, 'via': v.get('f')}
+                        probe = {'k': 'call', 'f': str(a0['text']).replace(' ', ''), 'recv': None, 'args': [elem], 'line': v.get('line')}
+                        if can(probe) is not None:
+                            new_args.append({'k': 'closure', 'id': None, 'line': v.get('line'), 'params': [{'names': ['__x'], 'ty': None}], 'body': probe})
+                            changed = True
+                            continue
+                    new_args.append(a)
+                if changed:
+                    v = dict(v, args=new_args)
             g0 = can(v) if v.get('k') == 'call' else None
             v2 = {k: (rw(x, d + 1) if isinstance(x, (dict, list)) else x) for k, x in v.items()}
             if v2.get('k') == 'call':
@@ -314,7 +332,8 @@ def view(ctx, f, depth=3, stop=(), _stack=(), force=(), mir=False):
                         return {'k': 'var', 'name': g['name'] + '()', 'ty': v2.get('ty') or (res.get('ty') if isinstance(res, dict) else None), 'v': _subst(res, _env(g, v2)), 'inlined': g['name']}
             return v2
 
-        if out['inlined']:
+        fn_values = any(c.get('f') in FN_VALUE_ADAPTORS and any(isinstance(vt.unvar(a), dict) and vt.unvar(a).get('k') == 'path' for a in c.get('args', [])) for c in f.get('calls', []))
+        if out['inlined'] or fn_values:
             for L in LISTS:
                 out[L] = [rw(it) for it in out[L]]
             out['tail'] = rw(f.get('tail'))
